@@ -120,7 +120,7 @@ def run(R, tier):
         val = EnumV(NV, variant, nv_tab[variant], {})
         res = eng_i.run(fw, [val, SymV("A_MAX", "amax"), SymV("A_MIN", "amin")])
         got = [(M.outcome(r), snapshot(ok_value(r)) if ok_value(r) is not None else None) for r in res]
-        R.check(got == [("Ok", exp)], "R17.4", "finish_with(%s)" % variant, "first argument is the maximum, second the minimum", "finish_with(max, min) routes its arguments wrongly: %s resolves to %s" % (variant, got), where=fw.span)
+        R.check(bool(got) and set(got) == {("Ok", exp)}, "R17.4", "finish_with(%s)" % variant, "first argument is the maximum, second the minimum", "finish_with(max, min) routes its arguments wrongly: %s resolves to %s" % (variant, got), where=fw.span)
     val = EnumV(NV, "Value", nv_tab["Value"], {0: SymV("T", "value")})
     res = eng_i.run(fw, [val, SymV("A_MAX", "amax"), SymV("A_MIN", "amin")])
     good = bool(res)
